@@ -122,6 +122,7 @@ func (glue) Run(line string) string {
 		if _, err = fmt.Sscanf(dec+" |", "%v |", &u3); err != nil || u3 != v {
 			fail("Sscanf=%s,%v", u3, err)
 		}
+		scanBackChecks[num.Uint128](v, fail)
 		// json
 		j, err := json.Marshal(v)
 		if err != nil || string(j) != dec {
@@ -218,6 +219,7 @@ func (glue) Run(line string) string {
 		if _, err = fmt.Sscanf(dec+" |", "%v |", &u3); err != nil || u3 != v {
 			fail("Sscanf=%s,%v", u3, err)
 		}
+		scanBackChecks[num.Int128](v, fail)
 		j, err := json.Marshal(v)
 		if err != nil || string(j) != dec {
 			fail("json.Marshal=%q,%v", j, err)
